@@ -15,9 +15,11 @@ cd $WT
 T=$(cargo test --offline 2>&1 | grep -E "^test result" | tr '\n' ' ')
 echo "tests-with-change: $T"
 (cd demo && cargo run --offline >/tmp/seed_demo_with.txt 2>&1); W=$?
-git stash -q -- src
+# (no `git stash`: the stash is shared by all worktrees of the repository)
+git diff -- src > /tmp/seed_patch_tmp.diff
+git checkout -- src
 (cd demo && cargo run --offline >/tmp/seed_demo_without.txt 2>&1); WO=$?
-git stash pop -q
+git apply /tmp/seed_patch_tmp.diff
 echo "demo with change: exit $W ; without: exit $WO"
 cd /repo
 git apply $D/patch.diff || { echo "patch does not apply to /repo"; exit 1; }
